@@ -351,9 +351,9 @@ func runFaults(r *core.Run, in faultIn) (*faultOut, error) {
 		select {
 		case res1 = <-done:
 			oc.Returned = true
-		case <-time.After(180 * time.Second):
+		case <-time.After(90 * time.Second):
 			oc.Problem = "hang"
-			oc.Detail = "build 1 did not return within 180 s; goroutines: " + strings.Join(pipelineGoroutines(), " || ")
+			oc.Detail = "build 1 did not return within 90 s; goroutines: " + strings.Join(pipelineGoroutines(), " || ")
 			out.Outcomes = append(out.Outcomes, oc)
 			out.Hung = ci
 			return out, nil
@@ -447,6 +447,7 @@ func (c *ctx) faultViolation(oc fOutcome, graphs []fGraph, extra map[string]inte
 func (c *ctx) runFaultCases(graphs []fGraph, cases []fCase, isolate bool) []fOutcome {
 	r := c.r
 	var all []fOutcome
+	hangs := 0
 	for len(cases) > 0 {
 		n := atomic.AddInt64(&c.batchSeq, 1)
 		in := faultIn{Graphs: graphs, Cases: cases, Progress: filepath.Join(r.Scratch, fmt.Sprintf("f%d.progress", n)), Dir: filepath.Join(c.fastTmp, fmt.Sprintf("f%d", n))}
@@ -486,6 +487,11 @@ func (c *ctx) runFaultCases(graphs []fGraph, cases []fCase, isolate bool) []fOut
 		}
 		all = append(all, out.Outcomes...)
 		if out.Hung >= 0 && out.Hung < len(cases) {
+			hangs++
+			if hangs >= 2 {
+				// two placements hang: the verdict is in, the rest would only cost minutes each
+				break
+			}
 			cases = cases[out.Hung+1:]
 			continue
 		}
